@@ -183,13 +183,16 @@ theorem short_label_inj {a b : Nat} (h : "v" ++ Nat.repr (a + 1) = "v" ++ Nat.re
 /-- no scope of `_name_remappings` maps anything -/
 def QuietRemaps (st : St) : Prop := ∀ v, lookupRemap st.remaps v = none
 
+theorem conflictStep_nil (nu : List String) (nn : String) : conflictStep [] nu nn = (nn, [], nu) := rfl
+
 theorem translateVar_fresh_short (o : Opts) (st : St) (v : String) (hr : o.rename = true)
     (ha : st.attrRen = []) (hm : QuietRemaps st) (hv : v ≠ "") :
     translateVar o st v = ("v" ++ Nat.repr ((shortStep st.shortKeys v).1 + 1),
         { st with shortKeys := (shortStep st.shortKeys v).2 }) := by
   unfold translateVar
   have : (v == "") = false := by simpa using hv
-  simp only [this, Bool.false_eq_true, if_false, hm v, newRenamer, hr, if_true, shortName, ha, List.lookup]
+  simp only [this, Bool.false_eq_true, if_false, hm v, newRenamer, hr, if_true, shortName, ha, List.lookup,
+    conflictStep_nil]
 
 theorem translateVars_fresh_short (o : Opts) (hr : o.rename = true) :
     ∀ (ns : List String) (st : St), st.attrRen = [] → QuietRemaps st → (∀ n ∈ ns, n ≠ "") →
@@ -767,7 +770,7 @@ theorem translateVar_uniq (o : Opts) (hr : o.rename = false) (st : St) (hq : Pla
     simp [pyT, uniqReq]
   · have : (v == "") = false := by simpa using hv
     simp only [this, Bool.false_eq_true, if_false, hq.remap v, newRenamer, hr, uniqueName, hq.attr, List.lookup,
-      pyT_uniqReq_fst st.uniq v hv]
+      pyT_uniqReq_fst st.uniq v hv, conflictStep_nil]
     simp only [uniqReq, hv, if_false]
 
 theorem translateVarRef_uniq (o : Opts) (hr : o.rename = false) (st : St) (hq : Plain st) (v : String) :
